@@ -253,3 +253,80 @@ Definition script_pubkey (p : profile) (a : payload) : outcome bytes :=
   | ScriptHash h => build p [BOpcode (n2b OP_HASH160); BSlice h; BOpcode (n2b OP_EQUAL)]
   | WitnessProgram v prog => build p [BInt (Z.of_N v); BSlice prog]
   end.
+
+(* ================================================================== specification side (used by Props/C16.v) *)
+(* What iterating a built script must yield: the pushes and opcodes that were added, in order, with
+   - push_int -1 / 1..16 shown as the opcodes 0x4f / 0x51..0x60, push_int 0 (and a raw opcode 0x00) as the empty push,
+   - integers otherwise as a push of their script-number encoding,
+   - push_verify after EQUAL(87) NUMEQUAL(9c) CHECKSIG(ac) CHECKMULTISIG(ae) CHECKSIGFROMSTACK(c1) replacing that opcode by
+     its VERIFY form (88 9d ad af c2), and appending VERIFY(69) in every other situation.
+   Byte values are literals here; Proofs/Script.v shows they agree with the constants read from src/opcodes.rs. *)
+Definition scriptint_bytes (p : profile) (n : Z) : bytes := match build_scriptint p n with Val e => e | Panic _ => [] end.
+Definition item_of_opcode (c : byte) : item := match c with x00 => IPush [] | _ => IOp c end.
+Definition int_item (p : profile) (n : Z) : item :=
+  if (n =? -1)%Z then IOp x4f
+  else if ((1 <=? n) && (n <=? 16))%Z then IOp (n2b (Z.to_N (0x50 + n)))
+  else if (n =? 0)%Z then IPush []
+  else IPush (scriptint_bytes p n).
+Definition fold_item (c : byte) : option byte :=
+  match c with x87 => Some x88 | x9c => Some x9d | xac => Some xad | xae => Some xaf | xc1 => Some xc2 | _ => None end.
+(* racc: the items so far, most recent first *)
+Definition expected_step (p : profile) (racc : list item) (op : bop) : list item :=
+  match op with
+  | BInt n => int_item p n :: racc
+  | BScriptInt n => IPush (scriptint_bytes p n) :: racc
+  | BSlice d => IPush d :: racc
+  | BOpcode c => item_of_opcode c :: racc
+  | BVerify => match racc with
+               | IOp c :: racc' => match fold_item c with Some v => IOp v :: racc' | None => IOp x69 :: racc end
+               | _ => IOp x69 :: racc end
+  end.
+Definition expected (p : profile) (ops : list bop) : list item := rev (fold_left (expected_step p) ops []).
+
+(* operations the read-back statement covers: integers are i64 values, raw opcodes are not push opcodes 0x01..0x4e *)
+Definition op_ok (op : bop) : bool :=
+  match op with
+  | BInt n | BScriptInt n => in_i64 n
+  | BOpcode c => negb ((1 <=? b2n c) && (b2n c <=? 0x4e))
+  | _ => true end.
+(* the data slice an operation pushes, if it pushes one *)
+Definition pushed (p : profile) (op : bop) : option bytes :=
+  match op with
+  | BInt n => match int_item p n with IPush d => Some d | _ => None end
+  | BScriptInt n => Some (scriptint_bytes p n)
+  | BSlice d => Some d
+  | BOpcode c => match item_of_opcode c with IPush d => Some d | _ => None end
+  | BVerify => None end.
+(* a one-byte slice that BIP62 wants pushed with OP_1..OP_16 / OP_1NEGATE *)
+Definition bad_single (d : bytes) : bool :=
+  match d with [x] => (b2n x =? 0x81) || ((1 <=? b2n x) && (b2n x <=? 16)) | _ => false end.
+(* instructions_minimal stops with NonMinimalPush at the first such push *)
+Fixpoint cut_nonminimal (l : list item) : list item :=
+  match l with
+  | [] => []
+  | IPush d :: r => if bad_single d then [IErr NonMinimalPush] else IPush d :: cut_nonminimal r
+  | i :: r => i :: cut_nonminimal r end.
+Definition is_err (i : item) : bool := match i with IErr _ | IPanic _ | IFuel => true | _ => false end.
+
+(* the four ways of writing a push of n bytes *)
+Definition valid_header (h : bytes) (n : N) : Prop :=
+  (h = [n2b n] /\ n <= 75) \/ (h = [x4c; n2b n] /\ n < 0x100) \/ (h = x4d :: le_enc 2 n /\ n < 0x10000)
+  \/ (h = x4e :: le_enc 4 n /\ n < 0x100000000).
+
+(* script numbers: little-endian magnitude, top bit of the last byte is the sign *)
+Fixpoint sm_dec (bs : bytes) : bool * N :=
+  match bs with
+  | [] => (false, 0)
+  | [b] => (128 <=? b2n b, b2n b mod 128)
+  | b :: r => let '(s, m) := sm_dec r in (s, b2n b + 256 * m) end.
+Definition sm_val (bs : bytes) : Z := let '(s, m) := sm_dec bs in if s then (- Z.of_N m)%Z else Z.of_N m.
+
+(* payloads whose address text round-trips (C06's wf_addr restricted to the payload): 20-byte hashes;
+   version <= 16 and a 2..40 byte program, 20 or 32 bytes for version 0 *)
+Definition payload_wf (a : payload) : bool :=
+  match a with
+  | PubkeyHash h | ScriptHash h => len_is h 20
+  | WitnessProgram v prog => (v <=? 16) && (2 <=? lenN prog) && (lenN prog <=? 40)
+                             && (negb (v =? 0) || len_is prog 20 || len_is prog 32) end.
+(* finding F14: version 1..16 followed by a push of 0 or 1 bytes that ends the script *)
+Definition known_F14 (s : bytes) : bool := is_v1plus_p2witprog s && (at_ s 1 <? 2).
